@@ -64,15 +64,23 @@ impl Server {
 
         let mut topics = self.topics.lock().await;
         let mut topic_handles = self.topic_handles.lock().await;
+        #[cfg(selium_verif)]
+        crate::verif::emit("sd_locks_acquired", &topics.len().to_string());
 
         topics.values_mut().for_each(|t| t.close_channel());
+        #[cfg(selium_verif)]
+        crate::verif::emit("sd_channels_closed", &topic_handles.len().to_string());
         join_all(topic_handles.iter_mut()).await;
+        #[cfg(selium_verif)]
+        crate::verif::emit("sd_joined", "");
 
         self.endpoint.close(
             VarInt::from_u32(error_codes::SHUTDOWN),
             b"Scheduled shutdown.",
         );
         self.endpoint.wait_idle().await;
+        #[cfg(selium_verif)]
+        crate::verif::emit("sd_idle", "");
 
         Ok(())
     }
